@@ -345,8 +345,7 @@ def run_sweep1d(case, bus, ex):
         if N >= 3:
             k = (N - 1) // 2                       # highest mode strictly below Nyquist
             a, phi = 1.3, 0.4
-            x = np.arange(N) / N
-            u = (a * np.cos(2 * np.pi * k * x + phi))[None]
+            u = (a * np.cos(2 * np.pi * ((k * np.arange(N)) % N) / N + phi))[None]          # phase reduced in integer arithmetic: the samples carry no O(eps k) argument error at large N
             c = np.asarray(sp.get_fourier_coefficients(jnp.asarray(u), round=None))
             bus.tap("get_fourier_coefficients")
             want = np.zeros(N // 2 + 1, complex)
